@@ -66,3 +66,18 @@ impl LuaIndex for LuaSignatureIndex {
         self.in_file_signatures.clear();
     }
 }
+
+/// Entry counts of every map of this index (verification hook, add-only, off by default).
+#[cfg(feature = "verif")]
+impl LuaSignatureIndex {
+    pub fn verif_sizes(&self) -> Vec<(String, usize)> {
+        let p = "signature";
+        let mut v: Vec<(String, usize)> = Vec::new();
+        let mut put = |name: &str, n: usize| v.push((format!("{p}.{name}"), n));
+        put("signatures", self.signatures.len());
+        put("in_file_signatures", self.in_file_signatures.len());
+        put("in_file_signatures.items", self.in_file_signatures.values().map(|s| s.len()).sum());
+
+        v
+    }
+}
